@@ -269,7 +269,9 @@ def build_net(kind: str, su: int, sd: int):
 def menu_for(kind: str, mode: str):
     if mode == "api":
         return [("tick",), ("api", "power_off"), ("api", "power_on"), ("api", "reset")]
-    m = [("tick",), ("shutdown",), ("startup",), ("reset",)]
+    # iface_enable: NetworkInterface.enable() called directly on every interface (what set-up code, (re)configuration helpers and
+    # link plugging do); the interface itself refuses while its node is not ON
+    m = [("tick",), ("shutdown",), ("startup",), ("reset",), ("iface_enable",)]
     if kind == "switch":
         m += [("ping_thru",), ("req", "fs_create_folder"), ("req", "nic_disable"), ("req", "nic_enable"),
               ("inject", "thru"), ("inject", "arp")]
@@ -428,6 +430,10 @@ class PowerAdapter(engine.Adapter):
             return net.node_req("x", [k]).status
         if k == "api":
             return bool(getattr(x, ev[1])())
+        if k == "iface_enable":
+            for i in ifaces(x):
+                i.enable()
+            return "".join("1" if i.enabled else "0" for i in ifaces(x))
         if k == "req":
             return net.req(request_for(self.kind, net.port, ev[1])).status
         if k == "ping_in":
